@@ -70,7 +70,7 @@ def check_arn_roundtrip(arn):
 def run_one(i, extra):
     seed = common.run_seed(i)
     rng = random.Random(seed)
-    mode = rng.choice(["api", "api", "api-restart", "child", "child"])
+    mode = rng.choice(["api", "api", "api-restart", "child", "child", "backstop"])
     typ = rng.choice(["STANDARD", "EXPRESS"])
     smname = gen_name(rng)
     exname = gen_name(rng)
@@ -86,7 +86,21 @@ def run_one(i, extra):
         findings.append({"property": PROP, "rule": rule, "witness": witness, "detail": detail, "seed": seed,
                          "names": [smname, exname], "mode": mode, "type": typ})
 
-    if mode in ("api", "api-restart"):
+    if mode == "backstop":
+        # an execution that only the periodic back stop ends (check_for_expired_branch_results derives the state
+        # machine from the execution ARN): a join that can never complete - the recorded C06 finding, where a failure
+        # caught by an inner Parallel cancels the healthy branch of the outer one - outliving its TimeoutSeconds
+        d = {"TimeoutSeconds": 20, "StartAt": "O", "States": {"O": {"Type": "Parallel", "End": True, "Branches": [
+            {"StartAt": "I", "States": {
+                "I": {"Type": "Parallel", "Branches": [
+                    {"StartAt": "X", "States": {"X": {"Type": "Task", "Resource": F + "bad", "End": True}}},
+                    {"StartAt": "Y", "States": {"Y": {"Type": "Task", "Resource": F + "work", "End": True}}}],
+                    "Catch": [{"ErrorEquals": ["States.ALL"], "ResultPath": "$.err", "Next": "H"}], "End": True},
+                "H": {"Type": "Pass", "End": True}}},
+            {"StartAt": "B", "States": {"B": {"Type": "Task", "Resource": F + "work", "End": True}}}]}}}
+        w.workers.script["bad"] = [{"err": "E.Alpha", "msg": "m", "delay": 1.0}]
+        w.workers.add_function("bad")
+    if mode in ("api", "api-restart", "backstop"):
         rec = w.api_sync(node, "CreateStateMachine", {"name": smname, "roleArn": w.ROLE, "definition": json.dumps(d), "type": typ})
         ok = rec["status"] == 200
         if ok != acceptable(smname):
@@ -118,6 +132,13 @@ def run_one(i, extra):
             w.sim.call_later(0.5, node.restart, None, kind="fault", label="restart")
             probes["restarts"] = 1
         w.run_quiescent(limit=900)
+        if mode == "backstop":
+            w.run_until(lambda: any(e["body"]["detail"].get("status") in ("SUCCEEDED", "FAILED") and
+                                    e["body"]["detail"].get("executionArn", "").endswith(":" + exname)
+                                    for e in w.subscriber.events), limit=400, what="the back stop")
+            ended = [e["body"]["detail"] for e in w.subscriber.events if e["body"]["detail"].get("status") != "RUNNING"]
+            if ended and "Forcing clean up" in (ended[-1].get("cause") or ended[-1].get("output") or ""):
+                probes["ended-by-the-back-stop"] = 1
         link_checks(w, sm_arn, ex_arn, exname, typ, add, probes, restarted=(mode == "api-restart"))
     else:
         # child launch with a Name parameter that never saw the API validators
@@ -156,7 +177,7 @@ def run_one(i, extra):
         pt = w.terminal_events().get(pex)
         if not pt:
             add("parent-never-terminal", "parent execution of child %r never ended" % exname)
-    minted.add(d["States"]["T"]["Resource"])
+    minted.add(F + "work")
     # one more ARN per run BUILT FROM PARTS (the property speaks of ARNs the engine mints, so the direction is
     # parts -> create_arn -> parse_arn -> the same parts -> the same string): empty and non-empty region / account,
     # every resource type the engine uses, resources that are an accepted name or <name>:<name>
@@ -252,8 +273,8 @@ def main(argv):
              "minted ARN, every Task Resource ARN used (local, region-less, other region, with account) and one ARN per run from the "
              "partition/service/region/account/resource-type combinations survives parse_arn/create_arn with the parts "
              "it was built from; distinct = distinct (names, mode, type)",
-        assumptions=["account and region fixed by the role ARN / configuration", "the time-out backstop derivation path "
-                     "is not driven here (it only runs for executions stuck past execution_ttl)"])
+        assumptions=["account and region fixed by the role ARN / configuration", "the time-out back stop derivation path "
+                     "is reached through the recorded C06 finding (a join that can never complete), mode 'backstop'"])
 
 
 if __name__ == "__main__":
